@@ -10,7 +10,7 @@ from hypothesis import strategies as st
 
 from .. import gen, model
 from ..core import SKIP, Sub
-from ..util import carr, arr, compare, flags, tarr
+from ..util import carr, arr, compare, epoch32, flags, tarr
 from ..model import F, G, M, S, U
 
 ID = "C12"
@@ -141,7 +141,14 @@ def att_case(draw, tier="quick"):
             mo = draw(st.integers(1, 6))
         elif mode == "min_period" and n >= 2 and not subsec:
             mp = draw(st.one_of(st.sampled_from([30, 60, 90, 120, 240, 600]), st.integers(1, 4000)))
-    base = {"x": x, "t": t, "check": check, "period": P, "min_obs": mo, "min_period": mp, "suspect": 1.0, "fail": 0.5}
+    off = 0.0
+    if mode == "none" or check == "range":
+        # a signal riding on a large offset (the windowed standard deviation is left out: pandas' online variance is not
+        # offset-exact and the statement does not ask it to be)
+        off = draw(gen.big_offset)
+        x = gen.shifted(x, off)
+    base = {"x": x, "t": t, "check": check, "period": P, "min_obs": mo, "min_period": mp, "suspect": 1.0, "fail": 0.5,
+            "offset": off}
     _, spreads, _ = model_att(base)
     sp = sorted(set(spreads))
 
@@ -157,7 +164,7 @@ def att_case(draw, tier="quick"):
     s, f = thr(), thr()
     if f > s and draw(st.booleans()):
         s, f = f, s
-    base.update(suspect=s, fail=f, tc=draw(st.sampled_from(["dt64", "dt64", "epoch"])))
+    base.update(suspect=s, fail=f, tc=draw(st.sampled_from(["dt64", "dt64", "epoch", "epoch32"])))
     return base
 
 
@@ -185,6 +192,8 @@ def check_att(case, rec):
             labels.append(nm)
     if any(float(v) != int(v) for v in t):
         labels.append("subsecond_times")
+    if case.get("offset"):
+        labels.append("large_offset")
     rec.note(any(meta.values()) or f > s, labels)
     kw = {"suspect_threshold": s, "fail_threshold": f, "check_type": kind}
     if case["period"] is not None:
@@ -196,6 +205,8 @@ def check_att(case, rec):
     from ..streamgen import np_time
     frac = any(float(v) != int(v) for v in t)
     tt = np.array(t, dtype="float64" if frac else "int64") if case.get("tc") == "epoch" else np_time(t)
+    if case.get("tc") == "epoch32":
+        tt = epoch32(t)
     site = "qartod.attenuated_signal_test"
     got = flags(rec, site, rec.call(site, _att(), carr(case, x), tt, **kw), n, check=kind)
     if got is SKIP:
